@@ -124,7 +124,9 @@ MSGS = ['', '', 'simple message', 'key: value', 'a: b: c', "'missing'", 'line on
         # a message that quotes a whole chained report (a wrapper re-raising what a subprocess printed)
         'child failed:\n\nDuring handling of the above exception, another exception occurred:\n\nTraceback (most recent call last):\n  File "c.py", line 2, in <module>\nOSError: gone',
         'cause:\n\nThe above exception was the direct cause of the following exception:\n\nTraceback (most recent call last):\n  File "c.py", line 5, in run\n    step()\nRuntimeError: wrapped',
-        'x\n\nDuring handling of the above exception, another exception occurred:\n\ny']
+        'x\n\nDuring handling of the above exception, another exception occurred:\n\ny',
+        # lines that hold nothing but blanks or tabs, indented blocks, a message ending in blanks
+        'table:\n    \nrow', 'a\n\t\nb', 'ends with a blank-only line\n   ', '  \n  x\n      y', '\tall\n\tindented\n\talike']
 
 
 def gen_text(r):
@@ -171,9 +173,33 @@ class Outer:
 class StrErr(Exception):
     def __str__(self):
         return 'custom: %s' % (self.args,)
+
+# classes that say they live in other modules (what a class defined in a script run by multiprocessing's spawn,
+# runpy or a test runner looks like): the interpreter leaves out exactly '__main__' and 'builtins'
+class MpErr(Exception):
+    pass
+MpErr.__module__ = '__mp_main__'
+
+class MainErr(Exception):
+    pass
+MainErr.__module__ = '__main__'
+
+class BuiltinsLikeErr(Exception):
+    pass
+BuiltinsLikeErr.__module__ = 'builtins'
+
+class DottedModErr(Exception):
+    pass
+DottedModErr.__module__ = 'pkg.sub.__main__'
+
+class MainishErr(Exception):
+    pass
+MainishErr.__module__ = '__main__2'
 '''
 EXC_EXPR = {'ValueError': 'ValueError(MSG)', 'KeyError': 'KeyError(MSG)', 'ModErr': 'ModErr(MSG)',
             'InnerErr': 'Outer.InnerErr(MSG)', 'DeeperErr': 'Outer.Deep.DeeperErr(MSG)', 'StrErr': 'StrErr(MSG)',
+            'MpErr': 'MpErr(MSG)', 'MainErr': 'MainErr(MSG)', 'BuiltinsLikeErr': 'BuiltinsLikeErr(MSG)',
+            'DottedModErr': 'DottedModErr(MSG)', 'MainishErr': 'MainishErr(MSG)',
             'ZeroDivisionError': None, 'OSError': 'OSError(2, MSG)', 'noargs': 'RuntimeError()',
             'twoargs': 'ValueError(MSG, 2)', 'AttributeError': None, 'bare-class': 'ModErr',
             # parser errors: they carry .msg/.lineno/.pos attributes and build their text from them
